@@ -128,6 +128,15 @@ func compileAST(kind string, env EnumEnv, objDesc string, props []Prop) (c compi
 // compileRoot: through the j5s text, or (genAST) through the AST
 func compileRoot(kind string, env EnumEnv, objDesc string, props []Prop) (compiled, string) {
 	src := FileRoot(kind, env, "Foo", objDesc, props)
+	if extra := env.ExtraFiles(); extra != nil { // several files: text path only
+		files := map[string]string{"foo/v1/a.j5s": src}
+		all := src
+		for name, text := range extra {
+			files[name] = text
+			all += "\n# ---- " + name + "\n" + text
+		}
+		return compileFiles(files), all
+	}
 	if genAST {
 		return compileAST(kind, env, objDesc, props), "(built as source AST, the text is an approximation)\n" + src
 	}
